@@ -626,6 +626,19 @@ func (ex *Exec) run() {
 		capt := map[string]bool{}
 		for _, c := range ex.con.Captures {
 			capt[c[0]] = true
+			// capture x0 T = entry x : the value parameter x had on entry (parameters are assignable, and a
+			// loop-carried variable of the same name hides the parameter inside loop invariants)
+			if strings.HasPrefix(c[1], "entry ") {
+				if v, ok := ex.params[strings.TrimSpace(strings.TrimPrefix(c[1], "entry "))]; ok {
+					if ex.captured == nil {
+						ex.captured = map[string]Val{}
+					}
+					ex.captured[c[0]] = v
+					ex.params[c[0]] = v
+				} else {
+					ex.unsup("capture %s: no parameter %s", c[0], c[1])
+				}
+			}
 		}
 		for _, gp := range ex.con.Ghost {
 			if !capt[gp.Name] {
@@ -1034,6 +1047,11 @@ func (ex *Exec) loopHead(li *loopInfo) {
 		e.assume(e.rangeAssume(c, phi.Type()))
 		if old.S == "Ref" {
 			e.assume(fmt.Sprintf("(or (= %s nil) (select %s (rootref %s)))", c, ex.st.get("alloc"), c))
+		}
+		if old.S == "Slice" {
+			// a slice value that exists here refers to an array that has been allocated (so a later
+			// allocation is a different array)
+			e.assume(fmt.Sprintf("(or (= (s.arr %s) nilarr) (select %s (s.arr %s)))", c, ex.st.get("allocA"), c))
 		}
 		ex.vals[phi] = Val{T: c, S: old.S}
 	}
